@@ -13,6 +13,13 @@ NEG = {ast.Eq: ast.NotEq, ast.NotEq: ast.Eq, ast.Lt: ast.GtE, ast.GtE: ast.Lt, a
 CONSUMERS = {"tuple", "frozenset", "set", "sum", "any", "all", "sorted", "min", "max", "dict"}
 
 
+KEY_ITERATORS = {"list", "tuple", "frozenset", "set", "sorted", "iter", "enumerate", "min", "max", "any", "all", "len"}
+
+
+def _is_keys(e) -> bool:
+    return isinstance(e, ast.Call) and isinstance(e.func, ast.Attribute) and e.func.attr == "keys" and not e.args and not e.keywords
+
+
 def _as_load(t):
     import copy
     t = copy.deepcopy(t)
@@ -53,6 +60,18 @@ def loop_body_form(stmts):
                 body = s.body[:-1]
                 s.test, s.body = neg, rest
                 out = out[:i] + [s] + body
+                changed = True
+                break
+            # `if c: A; continue` followed by a REST that falls through to the next iteration is `if c: A else: REST`
+            if isinstance(s, ast.If) and not s.orelse and s.body and isinstance(s.body[-1], ast.Continue) and i + 1 < len(out) and not _always_exits(out[i + 1:]) \
+                    and not any(isinstance(x, ast.Continue) for b in s.body[:-1] for x in ast.walk(b)):
+                if len(s.body) > 1:
+                    s.body, s.orelse = s.body[:-1], out[i + 1:]
+                    s = Canon().visit_If(s, descend=False)
+                else:
+                    neg = ast.copy_location(ast.UnaryOp(op=ast.Not(), operand=s.test), s.test)
+                    s.test, s.body = Canon().visit_UnaryOp(neg, descend=False), out[i + 1:]
+                out = out[:i] + [s]
                 changed = True
                 break
     return out
@@ -171,6 +190,15 @@ class Canon(ast.NodeTransformer):
             node.comparators = [c0.func.value]
         op = type(node.ops[0])
         l, r = node.left, node.comparators[0]
+        # x in ("a", "b")  is  x == "a" or x == "b"   (literal of constants, x a plain name / attribute)
+        if op in (ast.In, ast.NotIn) and isinstance(r, (ast.Tuple, ast.List, ast.Set)) and 1 <= len(r.elts) <= 5 and all(isinstance(x, ast.Constant) for x in r.elts) \
+                and isinstance(l, (ast.Name, ast.Attribute)):
+            import copy
+            cmps = [self.visit_Compare(ast.copy_location(ast.Compare(left=copy.deepcopy(l), ops=[ast.Eq() if op is ast.In else ast.NotEq()], comparators=[x]), node), descend=False)
+                    for x in r.elts]
+            if len(cmps) == 1:
+                return cmps[0]
+            return ast.copy_location(ast.BoolOp(op=ast.Or() if op is ast.In else ast.And(), values=cmps), node)
         if op in (ast.Gt, ast.GtE):
             return ast.copy_location(ast.Compare(left=r, ops=[ast.Lt() if op is ast.Gt else ast.LtE()], comparators=[l]), node)
         if op in (ast.Eq, ast.NotEq) and ast.unparse(r) < ast.unparse(l) and not isinstance(r, ast.Constant):
@@ -205,6 +233,15 @@ class Canon(ast.NodeTransformer):
             has = ast.copy_location(ast.Call(func=ast.Name(id="hasattr", ctx=ast.Load()), args=[node.args[0], node.args[1]], keywords=[]), node)
             return ast.copy_location(ast.IfExp(test=has, body=attr, orelse=node.args[2]), node)
         fn = node.func.id if isinstance(node.func, ast.Name) else None
+        # isinstance(x, (A, B)) is isinstance(x, A) or isinstance(x, B)
+        if fn == "isinstance" and len(node.args) == 2 and not node.keywords and isinstance(node.args[1], ast.Tuple) and 2 <= len(node.args[1].elts) <= 6:
+            import copy
+            vals = [ast.copy_location(ast.Call(func=ast.Name(id="isinstance", ctx=ast.Load()), args=[copy.deepcopy(node.args[0]), t], keywords=[]), node) for t in node.args[1].elts]
+            return ast.copy_location(ast.BoolOp(op=ast.Or(), values=vals), node)
+        # dict.fromkeys(X, v) is {k: v for k in X}
+        if ast.unparse(node.func) == "dict.fromkeys" and len(node.args) == 2 and not node.keywords:
+            comp = ast.comprehension(target=ast.Name(id="_k", ctx=ast.Store()), iter=node.args[0], ifs=[], is_async=0)
+            return ast.copy_location(ast.DictComp(key=ast.Name(id="_k", ctx=ast.Load()), value=node.args[1], generators=[comp]), node)
         # an identity comprehension is its iterable:  tuple([(k, v) for k, v in d.items()])  ==  tuple(d.items())
         if (fn in CONSUMERS or fn == "list") and len(node.args) == 1 and not node.keywords and isinstance(node.args[0], (ast.ListComp, ast.GeneratorExp)):
             lc = node.args[0]
@@ -218,6 +255,9 @@ class Canon(ast.NodeTransformer):
             return node
         # permutations(x, len(x)) is permutations(x);  pow(a, b) is a ** b
         fq = ast.unparse(node.func)
+        # iterating d.keys() is iterating d: list(d.keys()), sorted(d.keys()), frozenset(d.keys()), permutations(d.keys()) ...
+        if (fn in KEY_ITERATORS or fq.split(".")[-1] in ("permutations", "combinations")) and node.args and _is_keys(node.args[0]):
+            node.args[0] = node.args[0].func.value
         if fq in ("permutations", "it.permutations", "itertools.permutations") and len(node.args) == 2 and not node.keywords \
                 and isinstance(node.args[1], ast.Call) and ast.unparse(node.args[1].func) == "len" and len(node.args[1].args) == 1 \
                 and ast.dump(node.args[1].args[0]) == ast.dump(node.args[0]):
@@ -258,6 +298,10 @@ class Canon(ast.NodeTransformer):
     def visit_Assign(self, node):
         # x = A if c else B   ==   if c: x = A / else: x = B
         self.generic_visit(node)
+        # D[k] = D[k] + e  is  D[k] += e   (an element update either way; plain names are left alone: for a list the two differ)
+        if len(node.targets) == 1 and isinstance(node.targets[0], ast.Subscript) and isinstance(node.value, ast.BinOp) and isinstance(node.value.op, (ast.Add, ast.Sub, ast.Mult)) \
+                and ast.dump(_as_load(node.targets[0])) == ast.dump(node.value.left):
+            return ast.copy_location(ast.AugAssign(target=node.targets[0], op=node.value.op, value=node.value.right), node)
         if len(node.targets) == 1 and isinstance(node.value, ast.IfExp) and isinstance(node.targets[0], (ast.Name, ast.Attribute, ast.Subscript)):
             import copy
             ie = node.value
@@ -285,8 +329,16 @@ class Canon(ast.NodeTransformer):
         node.test = truth_form(node.test)
         return node
 
+    def visit_For(self, node):
+        node = self.generic_visit(node)
+        if _is_keys(node.iter):
+            node.iter = node.iter.func.value
+        return node
+
     def visit_comprehension(self, node):
         self.generic_visit(node)
+        if _is_keys(node.iter):
+            node.iter = node.iter.func.value
         node.ifs = [truth_form(t) for t in node.ifs]
         return node
 
